@@ -44,6 +44,25 @@ def rule_named_constants() -> set:
     return _KEEP_CACHE
 
 
+_IDENT_CACHE: set | None = None
+
+
+def rule_named_identifiers() -> set:
+    """every identifier-like word that occurs in the rules' own source (code or strings): a function whose name is NOT among
+    them cannot be an anchor of any rule, so expanding calls to it in place changes nothing a rule looks for by name"""
+    global _IDENT_CACHE
+    if _IDENT_CACHE is None:
+        words = set()
+        here = os.path.join(os.path.dirname(os.path.abspath(__file__)), "rules")
+        for base in (here, os.path.dirname(os.path.abspath(__file__))):
+            for f in os.listdir(base):
+                if f.endswith(".py") and not (base != here and f in ("normalize.py",)):
+                    src = open(os.path.join(base, f), encoding="utf-8").read()
+                    words |= set(re.findall(r"[A-Za-z_][A-Za-z0-9_]*", src))
+        _IDENT_CACHE = words
+    return _IDENT_CACHE
+
+
 def _is_literal(v) -> bool:
     if isinstance(v, ast.Constant):
         return True
@@ -150,9 +169,10 @@ def _eliminate_returns(stmts, ret_name, at):
 
 
 class Normalizer:
-    def __init__(self, project: Project, depth: int = 3):
+    def __init__(self, project: Project, depth: int = 3, public: bool = True):
         self.p = project
         self.depth = depth
+        self.public = public and os.environ.get("VERIF_INLINE_PUBLIC", "1") == "1"
         self._views: dict = {}
 
     # ------------------------------------------------------------------ callee resolution
@@ -160,7 +180,10 @@ class Normalizer:
         """(FuncInfo, receiver_kind) for a call to a private helper that can be expanded, else None."""
         f = call.func
         name = f.attr if isinstance(f, ast.Attribute) else getattr(f, "id", None)
-        if not name or not name.startswith("_") or name.startswith("__"):
+        if not name or name.startswith("__"):
+            return None
+        # private helpers always; public functions only when no rule knows them by name (e.g. a helper a refactoring introduced)
+        if not name.startswith("_") and (not self.public or name in rule_named_identifiers()):
             return None
         target = None
         if isinstance(f, ast.Attribute) and isinstance(f.value, ast.Name):
